@@ -434,6 +434,7 @@ class Retarget(Machine):
                 ctx.fail("independent", "apply_raised_" + e.kind, repr(ex))
                 continue
             ok, err = self._close(now, e.expect)
+            ctx.out(e.kind, now)
             ctx.require(ok, "independent", "map_changed_by_operation_on_another_object_" + e.kind,
                         lambda: "%s (copy=%r): map changed by %.3g without an operation on it" % (e.kind, e.is_copy, err))
         ctx.state(sorted((e.kind, tuple(sorted((k, str(v)) for k, v in e.opts.items())), min(e.sets, 3), e.is_copy)
